@@ -1114,6 +1114,10 @@ func (ctx Ctx) sliceExpr(e *ast.SliceExpr) coq.Expr {
 		ctx.unsupported(e, "setting the max capacity in a slice expression is not supported")
 		return nil
 	}
+	if _, ok := ctx.typeOf(e.X).Underlying().(*types.Slice); !ok {
+		ctx.unsupported(e, "slicing a value of type %v (only slices can be sliced)", ctx.typeOf(e.X))
+		return nil
+	}
 	x := ctx.expr(e.X)
 	if e.Low != nil && e.High == nil {
 		return coq.NewCallExpr(coq.GallinaIdent("SliceSkip"),
